@@ -130,40 +130,111 @@ Proof.
     + right. exists p. split; [reflexivity|]. eapply rec_ext; eauto.
 Qed.
 
+(* ------------------------------------------------------------------ frames: files recovery does not read *)
+Lemma lookup_map_names (F : name -> file -> file) s n :
+  lookup n (map (fun p => (fst p, F (fst p) (snd p))) s) = option_map (F n) (lookup n s).
+Proof.
+  induction s as [|[m g] s IH]; cbn [map lookup fst snd]; [reflexivity|].
+  destruct (name_eqb n m) eqn:E; [|exact IH]. apply name_eqb_eq in E. now subst.
+Qed.
+
+Definition keep_rel (img : fs) (n : name) (f : file) : file :=
+  if relevant n then match lookup n img with Some g => g | None => f end
+  else cut_file (length (f_data f)) f.
+
+Lemma cut_keep_rel img s :
+  Forall (fun p => relevant (fst p) = true ->
+            exists k, (Nat.min (f_dur (snd p)) (length (f_data (snd p))) <= k <= length (f_data (snd p)))%nat /\
+                      lookup (fst p) img = Some (cut_file k (snd p))) s ->
+  cut s (map (fun p => (fst p, keep_rel img (fst p) (snd p))) s).
+Proof.
+  induction s as [|[n f] s IH]; intros Hall; cbn [map]; [constructor|].
+  inversion Hall as [|? ? Hh Ht]; subst. cbn [fst snd] in *.
+  unfold keep_rel at 1. destruct (relevant n) eqn:Er.
+  - destruct (Hh eq_refl) as (k & Hk & Hl). rewrite Hl. constructor; [exact Hk|now apply IH].
+  - constructor; [split; [apply Nat.le_min_r|lia]|now apply IH].
+Qed.
+
+(* a state that differs only in files recovery does not read is as safe *)
+Lemma safe_same_rel s s' E P : wf s -> wf s' -> same_rel s s' -> Safe s E P -> Safe s' E P.
+Proof.
+  intros Hw Hw' Hs HS img Hc.
+  set (img0 := map (fun p => (fst p, keep_rel img (fst p) (snd p))) s).
+  assert (Hcut : cut s img0).
+  { apply cut_keep_rel. apply Forall_forall. intros [n f] Hin Hr. cbn [fst snd] in *.
+    pose proof (in_lookup n f s Hw Hin) as Hl. rewrite <- (Hs n Hr) in Hl.
+    pose proof (cut_lookup s' img n Hc) as H. rewrite Hl in H. exact H. }
+  assert (Hrel : same_rel img0 img).
+  { intros n Hn. unfold img0. rewrite lookup_map_names. unfold keep_rel. rewrite Hn.
+    pose proof (cut_lookup s' img n Hc) as H. rewrite (Hs n Hn) in H.
+    destruct (lookup n s) as [f|]; cbn [option_map].
+    - destruct H as (k & _ & ->). reflexivity.
+    - exact H. }
+  assert (Hwi : wf img) by (eapply cut_wf; eauto).
+  destruct (HS img0 Hcut) as [Hr|(p & Hp & Hr)].
+  - left. eapply rec_ext; eauto.
+  - right. exists p. split; [exact Hp|]. eapply rec_ext; eauto.
+Qed.
+
 (* ------------------------------------------------------------------ walking through a program *)
+(* the directory after the first k calls of a run in which the call with index f (if any) fails
+   with an injected I/O error; f = None: the crash points of the fault-free run *)
+Definition fstate (p : prog) (f : option nat) (k : nat) (s : fs) : fs := fst (run_prog (firstn k p) f O s None).
+
+(* every state an operation passes through — fault-free, or with any single call failing — is safe *)
 Definition prefix_safe (p : prog) (s : fs) (E : list entry) (P : option (list entry)) : Prop :=
-  forall k, Safe (prefix_state p k s) E P.
+  forall f k, Safe (fstate p f k s) E P.
+
+(* the states after an error was deferred (compaction_finish): n calls are skipped, the inputs are
+   not retired, the clean-up runs *)
+Definition dstate (p : prog) (n k : nat) (s : fs) : fs := fst (run_prog (firstn k p) None n s (Some EIo)).
+Definition dsafe (p : prog) (n : nat) (s : fs) (E : list entry) (P : option (list entry)) : Prop :=
+  forall k, Safe (dstate p n k s) E P.
 
 Definition run (p : prog) (s : fs) : fs * option err := run_prog p None O s None.
 
-Lemma prefix_safe_nil s E P : Safe s E P -> prefix_safe [] s E P.
-Proof. intros H k. unfold prefix_state. now rewrite firstn_nil. Qed.
-
-Lemma prefix_state_0 p s : prefix_state p 0 s = s.
+Lemma prefix_state_fstate p k s : prefix_state p k s = fstate p None k s.
 Proof. reflexivity. Qed.
 
-Lemma prefix_state_must_cons c p k s :
-  prefix_state ((c, Must) :: p) (S k) s = match exec c s with Some s' => prefix_state p k s' | None => s end.
-Proof. unfold prefix_state. cbn [firstn run_prog]. now destruct (exec c s). Qed.
+Lemma prefix_safe_nil s E P : Safe s E P -> prefix_safe [] s E P.
+Proof. intros H f k. unfold fstate. now rewrite firstn_nil. Qed.
 
 Lemma prefix_safe_must_cons c p s E P :
   Safe s E P -> (forall s', exec c s = Some s' -> prefix_safe p s' E P) -> prefix_safe ((c, Must) :: p) s E P.
 Proof.
-  intros H0 Hn [|k]; [exact H0|]. rewrite prefix_state_must_cons.
-  destruct (exec c s) as [s'|] eqn:Ex; [now apply Hn|exact H0].
+  intros H0 Hn f [|k]; [exact H0|]. unfold fstate. cbn [firstn run_prog].
+  destruct f as [[|j]|]; [exact H0| |]; (destruct (exec c s) as [s'|] eqn:Ex; [apply (Hn s' eq_refl)|exact H0]).
 Qed.
 
-Lemma prefix_state_ignore_cons c p k s :
-  prefix_state ((c, Ignore) :: p) (S k) s = prefix_state p k (exec_or c s).
-Proof. unfold prefix_state, exec_or. cbn [firstn run_prog]. now destruct (exec c s). Qed.
-
+(* a call whose error is dropped: it succeeds, fails by itself, or fails by injection *)
 Lemma prefix_safe_ignore_cons c p s E P :
-  Safe s E P -> prefix_safe p (exec_or c s) E P -> prefix_safe ((c, Ignore) :: p) s E P.
-Proof. intros H0 Hn [|k]; [exact H0|]. rewrite prefix_state_ignore_cons. apply Hn. Qed.
+  Safe s E P -> prefix_safe p (exec_or c s) E P -> prefix_safe p s E P -> prefix_safe ((c, Ignore) :: p) s E P.
+Proof.
+  intros H0 Hn Hs f [|k]; [exact H0|]. unfold fstate, exec_or in *. cbn [firstn run_prog].
+  destruct f as [[|j]|]; [apply (Hs None k)| |]; (destruct (exec c s) as [s'|]; apply Hn).
+Qed.
 
-Lemma prefix_state_retire_cons c p k s :
-  prefix_state ((c, Retire) :: p) (S k) s = prefix_state p k (exec_or c s).
-Proof. unfold prefix_state, exec_or. cbn [firstn run_prog]. now destruct (exec c s). Qed.
+Lemma prefix_safe_retire_cons c p s E P :
+  Safe s E P -> prefix_safe p (exec_or c s) E P -> prefix_safe p s E P -> prefix_safe ((c, Retire) :: p) s E P.
+Proof.
+  intros H0 Hn Hs f [|k]; [exact H0|]. unfold fstate, exec_or in *. cbn [firstn run_prog].
+  destruct f as [[|j]|]; [apply (Hs None k)| |]; (destruct (exec c s) as [s'|]; apply Hn).
+Qed.
+
+Lemma prefix_safe_exist_cons c p s E P :
+  Safe s E P -> prefix_safe p (exec_or c s) E P -> prefix_safe ((c, Exist) :: p) s E P.
+Proof.
+  intros H0 Hn f [|k]; [exact H0|]. unfold fstate, exec_or in *. cbn [firstn run_prog].
+  destruct f as [[|j]|]; [exact H0| |]; (destruct (exec c s) as [s'|]; apply Hn).
+Qed.
+
+Lemma prefix_safe_defer_cons c n p s E P :
+  Safe s E P -> (exists s1, exec c s = Some s1) -> (forall s', exec c s = Some s' -> prefix_safe p s' E P) ->
+  dsafe p n s E P -> prefix_safe ((c, Defer n) :: p) s E P.
+Proof.
+  intros H0 (s1 & E1) Hn Hd f [|k]; [exact H0|]. unfold fstate. cbn [firstn run_prog].
+  destruct f as [[|j]|]; [apply (Hd k)| |]; rewrite E1; apply (Hn s1 E1).
+Qed.
 
 Lemma run_must_cons c p s :
   run ((c, Must) :: p) s = match exec c s with Some s' => run p s' | None => (s, Some EIo) end.
@@ -172,28 +243,55 @@ Proof. unfold run. cbn [run_prog]. now destruct (exec c s). Qed.
 Lemma run_ignore_cons c p s : run ((c, Ignore) :: p) s = run p (exec_or c s).
 Proof. unfold run, exec_or. cbn [run_prog]. now destruct (exec c s). Qed.
 
-(* sequencing: the second part is walked from wherever the first part ended successfully *)
+Lemma run_retire_cons c p s : run ((c, Retire) :: p) s = run p (exec_or c s).
+Proof. unfold run, exec_or. cbn [run_prog]. now destruct (exec c s). Qed.
+
+Lemma run_exist_cons c p s : run ((c, Exist) :: p) s = run p (exec_or c s).
+Proof. unfold run, exec_or. cbn [run_prog]. now destruct (exec c s). Qed.
+
+Lemma must_app a b : must (a ++ b) = must a ++ must b.
+Proof. unfold must. apply map_app. Qed.
+
+Definition fsub (f : option nat) (n : nat) : option nat := match f with Some j => Some (j - n)%nat | None => None end.
+
+(* a run of `?` calls, then more: either it stopped inside the first part, or nothing was injected
+   there and the rest runs from where the fault-free first part ends *)
+Lemma run_prog_must_app cs : forall p f s,
+  run_prog (must cs ++ p) f O s None =
+  match run_prog (must cs) f O s None with
+  | (s', None) => run_prog p (fsub f (length cs)) O s' None
+  | r => r
+  end.
+Proof.
+  induction cs as [|c cs IH]; intros p f s.
+  - cbn [must map app run_prog length fsub]. destruct f as [j|]; cbn [fsub]; [now rewrite Nat.sub_0_r|reflexivity].
+  - cbn [must map app run_prog length]. fold (must cs).
+    destruct f as [[|j]|]; cbn [fsub]; [reflexivity| |]; (destruct (exec c s) as [s1|]; [|reflexivity]); rewrite IH; reflexivity.
+Qed.
+
+Lemma run_prog_must_ok cs : forall f s s', run_prog (must cs) f O s None = (s', None) -> run (must cs) s = (s', None).
+Proof.
+  induction cs as [|c cs IH]; intros f s s'; cbn [must map run_prog].
+  - intros H. exact H.
+  - fold (must cs). unfold run. cbn [run_prog]. fold (must cs).
+    destruct f as [[|j]|]; [discriminate| |]; (destruct (exec c s) as [s1|]; [apply IH|discriminate]).
+Qed.
+
+Lemma run_app_must cs p s :
+  run (must cs ++ p) s = match run (must cs) s with (s', None) => run p s' | r => r end.
+Proof. unfold run. rewrite run_prog_must_app. reflexivity. Qed.
+
 Lemma prefix_safe_app_must cs p s E P :
   prefix_safe (must cs) s E P ->
   (forall s', run (must cs) s = (s', None) -> prefix_safe p s' E P) ->
   prefix_safe (must cs ++ p) s E P.
 Proof.
-  revert s. induction cs as [|c cs IH]; intros s H1 H2.
-  - cbn [must map app]. apply H2. reflexivity.
-  - cbn [must map app]. apply prefix_safe_must_cons; [exact (H1 O)|].
-    intros s' Hs'. apply IH.
-    + intros k. specialize (H1 (S k)). cbn [must map] in H1. rewrite prefix_state_must_cons, Hs' in H1. exact H1.
-    + intros s'' Hr. apply H2. cbn [must map]. now rewrite run_must_cons, Hs'.
-Qed.
-
-Lemma must_app a b : must (a ++ b) = must a ++ must b.
-Proof. unfold must. apply map_app. Qed.
-
-Lemma run_app_must cs p s :
-  run (must cs ++ p) s = match run (must cs) s with (s', None) => run p s' | r => r end.
-Proof.
-  revert s. induction cs as [|c cs IH]; intros s; [reflexivity|].
-  cbn [must map app]. rewrite !run_must_cons. destruct (exec c s); [apply IH|reflexivity].
+  intros H1 H2 f k. unfold fstate. destruct (Nat.le_gt_cases k (length (must cs))) as [Hk|Hk].
+  - rewrite firstn_app. replace (k - length (must cs))%nat with O by lia. cbn [firstn]. rewrite app_nil_r. apply H1.
+  - rewrite firstn_app, firstn_all2 by lia. rewrite run_prog_must_app.
+    destruct (run_prog (must cs) f O s None) as [s' [e|]] eqn:R.
+    + specialize (H1 f (length (must cs))). unfold fstate in H1. rewrite firstn_all, R in H1. exact H1.
+    + apply (H2 s' (run_prog_must_ok _ _ _ _ R)).
 Qed.
 
 Lemma run_must_err cs s s' e : run (must cs) s = (s', Some e) -> e = EIo.
@@ -211,7 +309,24 @@ Proof.
   - rewrite run_must_cons. unfold exec_or. destruct (exec c s); [apply IH|discriminate].
 Qed.
 
-(* ------------------------------------------------------------------ walk = every crash point is safe, and the end satisfies Q *)
+(* ------------------------------------------------------------------ after a deferred error *)
+Lemma dsafe_nil n s E P : Safe s E P -> dsafe [] n s E P.
+Proof. intros H k. unfold dstate. rewrite firstn_nil. exact H. Qed.
+
+Lemma dsafe_skip cm p n s E P : Safe s E P -> dsafe p n s E P -> dsafe (cm :: p) (S n) s E P.
+Proof. intros H0 H [|k]; [exact H0|]. unfold dstate. destruct cm as [c m]. cbn [firstn run_prog]. apply H. Qed.
+
+Lemma dsafe_retire c p s E P : Safe s E P -> dsafe p O s E P -> dsafe ((c, Retire) :: p) O s E P.
+Proof. intros H0 H [|k]; [exact H0|]. unfold dstate. cbn [firstn run_prog]. apply H. Qed.
+
+Lemma dsafe_must c p s E P :
+  Safe s E P -> (forall s', exec c s = Some s' -> dsafe p O s' E P) -> dsafe ((c, Must) :: p) O s E P.
+Proof.
+  intros H0 H [|k]; [exact H0|]. unfold dstate. cbn [firstn run_prog].
+  destruct (exec c s) as [s'|] eqn:Ex; [apply (H s' eq_refl)|exact H0].
+Qed.
+
+(* ------------------------------------------------------------------ walk = every state passed through is safe, and the end satisfies Q *)
 Definition walk (p : prog) (s : fs) (E : list entry) (P : option (list entry)) (Q : fs -> Prop) : Prop :=
   prefix_safe p s E P /\ forall s', run p s = (s', None) -> Q s'.
 
@@ -229,22 +344,36 @@ Proof.
 Qed.
 
 Lemma walk_ignore_cons c p s E P (Q : fs -> Prop) :
-  Safe s E P -> walk p (exec_or c s) E P Q -> walk ((c, Ignore) :: p) s E P Q.
+  Safe s E P -> walk p (exec_or c s) E P Q -> prefix_safe p s E P -> walk ((c, Ignore) :: p) s E P Q.
 Proof.
-  intros H0 [Hn1 Hn2]. split.
+  intros H0 [Hn1 Hn2] Hs. split.
   - now apply prefix_safe_ignore_cons.
   - intros s'. rewrite run_ignore_cons. apply Hn2.
 Qed.
 
-Lemma run_retire_cons c p s : run ((c, Retire) :: p) s = run p (exec_or c s).
-Proof. unfold run, exec_or. cbn [run_prog]. now destruct (exec c s). Qed.
-
 Lemma walk_retire_cons c p s E P (Q : fs -> Prop) :
-  Safe s E P -> walk p (exec_or c s) E P Q -> walk ((c, Retire) :: p) s E P Q.
+  Safe s E P -> walk p (exec_or c s) E P Q -> prefix_safe p s E P -> walk ((c, Retire) :: p) s E P Q.
+Proof.
+  intros H0 [Hn1 Hn2] Hs. split.
+  - now apply prefix_safe_retire_cons.
+  - intros s'. rewrite run_retire_cons. apply Hn2.
+Qed.
+
+Lemma walk_exist_cons c p s E P (Q : fs -> Prop) :
+  Safe s E P -> walk p (exec_or c s) E P Q -> walk ((c, Exist) :: p) s E P Q.
 Proof.
   intros H0 [Hn1 Hn2]. split.
-  - intros [|k]; [exact H0|]. rewrite prefix_state_retire_cons. apply Hn1.
-  - intros s'. rewrite run_retire_cons. apply Hn2.
+  - now apply prefix_safe_exist_cons.
+  - intros s'. rewrite run_exist_cons. apply Hn2.
+Qed.
+
+Lemma walk_defer_cons c n p s E P (Q : fs -> Prop) :
+  Safe s E P -> (exists s1, exec c s = Some s1) -> (forall s', exec c s = Some s' -> walk p s' E P Q) ->
+  dsafe p n s E P -> walk ((c, Defer n) :: p) s E P Q.
+Proof.
+  intros H0 (s1 & E1) Hn Hd. destruct (Hn s1 E1) as [A B]. split.
+  - apply prefix_safe_defer_cons; [exact H0|eauto| |exact Hd]. intros s' Hs. apply (Hn s' Hs).
+  - intros s'. unfold run. cbn [run_prog]. rewrite E1. apply B.
 Qed.
 
 Lemma walk_conseq p s E P (Q Q' : fs -> Prop) : (forall s', Q s' -> Q' s') -> walk p s E P Q -> walk p s E P Q'.
@@ -274,6 +403,11 @@ Proof.
   eapply exec_wf; [|exact He]. apply Hg.
 Qed.
 
+Lemma safe_irrelevant c s s' E P : wf s -> irrelevant_call c -> exec c s = Some s' -> Safe s E P -> Safe s' E P.
+Proof.
+  intros Hw Hi He HS. apply (safe_same_rel s s'); [exact Hw|eapply exec_wf; eauto|eapply exec_irrelevant; eauto|exact HS].
+Qed.
+
 Lemma walk_irrelevant cs : forall s E P,
   Forall irrelevant_call cs -> Good s E ->
   walk (must cs) s E P (fun s' => run (must cs) s = (s', None) /\ Good s' E /\ same_rel s s').
@@ -288,7 +422,19 @@ Proof.
     + eapply same_rel_trans; [eapply exec_irrelevant; eauto|exact Sm].
 Qed.
 
-(* ------------------------------------------------------------------ walk_ok = walk, and the run does complete *)
+(* after a deferred error only inputs' retirement (not issued) and clean-up calls are left *)
+Definition cleanup_like (p : prog) : Prop :=
+  Forall (fun cm => snd cm = Retire \/ (snd cm = Must /\ irrelevant_call (fst cm))) p.
+
+Lemma dsafe_cleanup p : forall s E P, cleanup_like p -> wf s -> Safe s E P -> dsafe p O s E P.
+Proof.
+  induction p as [|[c m] p IH]; intros s E P Hc Hw HS; [now apply dsafe_nil|].
+  inversion Hc as [|? ? Hh Ht]; subst. cbn [fst snd] in Hh. destruct Hh as [->|[-> Hi]].
+  - apply dsafe_retire; [exact HS|now apply IH].
+  - apply dsafe_must; [exact HS|]. intros s' Hs'. apply IH; [exact Ht|eapply exec_wf; eauto|eapply safe_irrelevant; eauto].
+Qed.
+
+(* ------------------------------------------------------------------ walk_ok = walk, and the fault-free run does complete *)
 Definition walk_ok (p : prog) (s : fs) (E : list entry) (P : option (list entry)) (Q : fs -> Prop) : Prop :=
   prefix_safe p s E P /\ exists s', run p s = (s', None) /\ Q s'.
 
@@ -326,65 +472,9 @@ Lemma walk_ok_with_replay cs s E P (Q : fs -> Prop) :
 Proof. intros [A (s' & R & HQ)]. split; [exact A|]. exists s'. split; [exact R|]. split; [exact HQ|now apply run_must_replay]. Qed.
 
 Lemma walk_ok_ignore_cons c p s E P (Q : fs -> Prop) :
-  Safe s E P -> walk_ok p (exec_or c s) E P Q -> walk_ok ((c, Ignore) :: p) s E P Q.
+  Safe s E P -> walk_ok p (exec_or c s) E P Q -> prefix_safe p s E P -> walk_ok ((c, Ignore) :: p) s E P Q.
 Proof.
-  intros H0 [Hn1 (s' & R & HQ)]. split.
+  intros H0 [Hn1 (s' & R & HQ)] Hs. split.
   - now apply prefix_safe_ignore_cons.
   - exists s'. split; [|exact HQ]. now rewrite run_ignore_cons.
-Qed.
-
-(* ------------------------------------------------------------------ other modes, general sequencing *)
-Lemma prefix_state_exist_cons c p k s :
-  prefix_state ((c, Exist) :: p) (S k) s = prefix_state p k (exec_or c s).
-Proof. unfold prefix_state, exec_or. cbn [firstn run_prog]. now destruct (exec c s). Qed.
-
-Lemma run_exist_cons c p s : run ((c, Exist) :: p) s = run p (exec_or c s).
-Proof. unfold run, exec_or. cbn [run_prog]. now destruct (exec c s). Qed.
-
-Lemma walk_exist_cons c p s E P (Q : fs -> Prop) :
-  Safe s E P -> walk p (exec_or c s) E P Q -> walk ((c, Exist) :: p) s E P Q.
-Proof.
-  intros H0 [Hn1 Hn2]. split.
-  - intros [|k]; [exact H0|]. rewrite prefix_state_exist_cons. apply Hn1.
-  - intros s'. rewrite run_exist_cons. apply Hn2.
-Qed.
-
-(* a call that does succeed: its mode does not matter *)
-Lemma walk_any_cons c m p s E P (Q : fs -> Prop) :
-  Safe s E P -> (exists s1, exec c s = Some s1) -> (forall s', exec c s = Some s' -> walk p s' E P Q) ->
-  walk ((c, m) :: p) s E P Q.
-Proof.
-  intros H0 (s1 & E1) Hn. destruct (Hn s1 E1) as [A B]. split.
-  - intros [|k]; [exact H0|]. unfold prefix_state. cbn [firstn run_prog]. destruct m; rewrite E1; apply A.
-  - intros s'. unfold run. cbn [run_prog]. destruct m; rewrite E1; apply B.
-Qed.
-
-Definition no_defer (p : prog) : Prop := Forall (fun cm => match snd cm with Defer _ => False | _ => True end) p.
-
-Lemma no_defer_must cs : no_defer (must cs).
-Proof. unfold no_defer, must. apply Forall_forall. intros cm H. apply in_map_iff in H. destruct H as (c & <- & _). exact I. Qed.
-
-Lemma run_nodefer_app p1 : forall p2 s, no_defer p1 ->
-  run (p1 ++ p2) s = match run p1 s with (s', None) => run p2 s' | r => r end.
-Proof.
-  induction p1 as [|[c m] p1 IH]; intros p2 s Hnd; [reflexivity|].
-  inversion Hnd as [|? ? Hm Hnd']; subst. cbn [app]. unfold run in *. cbn [run_prog].
-  destruct m; cbn [snd] in Hm; try (destruct Hm); (destruct (exec c s) as [s1|]; [now apply IH|]);
-    [reflexivity|now apply IH|now apply IH|now apply IH].
-Qed.
-
-Lemma walk_app_nodefer p1 p2 s E P (Q : fs -> Prop) : no_defer p1 ->
-  walk p1 s E P (fun s' => walk p2 s' E P Q) -> walk (p1 ++ p2) s E P Q.
-Proof.
-  intros Hnd [A B]. split.
-  - intros k. unfold prefix_state. destruct (Nat.le_gt_cases k (length p1)) as [Hk|Hk].
-    + rewrite firstn_app. replace (k - length p1)%nat with O by lia. cbn [firstn]. rewrite app_nil_r. apply A.
-    + rewrite firstn_app, firstn_all2 by lia.
-      change (Safe (fst (run (p1 ++ firstn (k - length p1) p2) s)) E P). rewrite run_nodefer_app by exact Hnd.
-      destruct (run p1 s) as [s' [e|]] eqn:R.
-      * specialize (A (length p1)). unfold prefix_state in A. rewrite firstn_all in A.
-        change (Safe (fst (run p1 s)) E P) in A. now rewrite R in A.
-      * apply (proj1 (B s' eq_refl)).
-  - intros s''. rewrite run_nodefer_app by exact Hnd. destruct (run p1 s) as [s' [e|]] eqn:R; [discriminate|].
-    apply (proj2 (B s' eq_refl)).
 Qed.
